@@ -268,7 +268,12 @@ class ReuseDep5(GlobalLicensing):
         path = Path(path)
         try:
             with path.open(encoding="utf-8") as fp:
-                return cls(str(path), Copyright(fp))
+                dep5_copyright = Copyright(fp)
+            # The fields of a paragraph are only parsed on first access.
+            expressions = []
+            for paragraph in dep5_copyright.all_files_paragraphs():
+                paragraph.files_pattern()
+                expressions.append(paragraph.license.synopsis)
         except UnicodeDecodeError as error:
             raise GlobalLicensingParseError(
                 str(error), source=str(path)
@@ -280,6 +285,19 @@ class ReuseDep5(GlobalLicensing):
             raise GlobalLicensingParseError(
                 str(error), source=str(path)
             ) from error
+        # A Files or License field that cannot be parsed would otherwise
+        # surface later as a read error of every file that is looked up.
+        for expression in expressions:
+            try:
+                _LICENSING.parse(expression)
+            except Exception as error:
+                raise GlobalLicensingParseValueError(
+                    _("Could not parse '{expression}'").format(
+                        expression=expression
+                    ),
+                    source=str(path),
+                ) from error
+        return cls(str(path), dep5_copyright)
 
     def reuse_info_of(
         self, path: StrPath
